@@ -37,3 +37,19 @@
 ; ghost cok (Array Int Bool)
 ; gok[p] : the verifier has read the commitments of predicate object p
 ; ghost gok Bool
+; ---- byte streams behind io.Reader values ----
+; rdsrc[r]   : identity of the byte stream that reader object r draws from
+; rdcount[r] : number of bytes consumed from it so far
+; ghost rdsrc Int
+; ghost rdcount Int
+; streamBytes(src, from, n): the n bytes of stream src starting at position from
+(declare-fun streamBytes (Int Int Int) Bytes)
+; ---- pairings (abstract): e : G1 x G2 -> GT, all three groups share the sort G of abstract group elements ----
+(declare-fun epair (G G) G)
+; the GT group written additively like the others: gadd is its (multiplicative) operation, gneg inversion, gzero its identity
+; a product a * b^-1 is the identity exactly when a = b
+(assert (forall ((a G) (b G)) (! (= (= (gadd a (gneg b)) gzero) (= a b)) :pattern ((gadd a (gneg b))))))
+; bilinearity consequence used by the pairing-product checks: e(-P, Q) = e(P, Q)^-1
+(assert (forall ((p G) (q G)) (! (= (epair (gneg p) q) (gneg (epair p q))) :pattern ((epair (gneg p) q)))))
+; eacc[e] : the product of pairings accumulated in a pairing engine object e (written additively)
+; ghost eacc G
